@@ -272,9 +272,11 @@ package pointindex
 //@ macro bbMinY(tms) = trunc(bboxBL(tms, 0)[1] * 10000000000)
 //@ macro bbMaxX(tms) = trunc(bboxTR(tms, 0)[0] * 10000000000)
 //@ macro bbMaxY(tms) = trunc(bboxTR(tms, 0)[1] * 10000000000)
-//@ macro indexable(tms, id) = (hasKey(tms.TileMatrices, 0) ==> !isNil(tms.TileMatrices[0].PointOfOrigin) && len(tms.TileMatrices[0].VariableMatrixWidths) == 0)
+//@ macro rootOK(tms, id) = !isNil(tms.TileMatrices[0].PointOfOrigin) && len(tms.TileMatrices[0].VariableMatrixWidths) == 0
 //@     && 0 <= id && 1 <= tms.TileMatrices[0].TileWidth && tms.TileMatrices[0].TileWidth <= 1099511627776 && tmLevel(tms, id) <= 32
 //@     && bbOK(tms) && bbMaxX(tms) - bbMinX(tms) >= pow2(tmLevel(tms, id))
+//@ macro indexable(tms, id) = hasKey(tms.TileMatrices, 0) && rootOK(tms, id)
+//@ macro indexableIf0(tms, id) = hasKey(tms.TileMatrices, 0) ==> rootOK(tms, id)
 //@ func FromTileMatrixSet
 //@   prelude arith tmsaxis
 //@   requires indexable(tileMatrixSet, deepestTMID)
@@ -291,5 +293,5 @@ package pointindex
 // is missing. (PrintWithDecimals only formats a number; it is trusted not to panic for n >= Precision + 1.)
 //@ func DeviationStats
 //@   prelude arith tmsaxis
-//@   requires indexable(tms, deepestTMID)
+//@   requires indexableIf0(tms, deepestTMID)
 //@   ensures[C14] err == nil ==> hasKey(tms.TileMatrices, 0)
